@@ -27,6 +27,11 @@ CHECKS = {
          "Every fully parenthesised tree over || && ?: ! with <=3 internal nodes and <=4 leaves (thorough: <=4 nodes/<=4 leaves and <=3 nodes/<=5 leaves) with every leaf drawn from 12/14 atoms (literal and bound true/false, truthy/falsy non-bools, a foldable failure, a run-time failure, an unbound name, functions that record their call and return true/false/an error) is executed; the result and the exact sequence of recorded calls must equal the reference lazy evaluator. Every match with 0..2/3 cases over 7 patterns x 5 arms x 11 scrutinees (literal and bound), and a truthiness table of 35 values of every type x 16 contexts x literal/bound. Complete for these bounds only.",
          "Trusted: the reference evaluator (c05.rs) as the reading of the statement; failure kinds are not compared; matches whose pattern comparison involves unrelated types are totality-only; bool(s) on the documented literal spellings is a conversion.",
          "DESIGN.md section 3, C05"),
+ "C06": ("exploration",
+         "bounded exhaustive enumeration of lists, map literals with repeated keys, indices, probes and string/bytes pairs in literal, partly bound and bound forms against a Vec/BTreeMap reference",
+         "All lists of length <=3/4 over 9 elements (one per type, nested list and map included) in 3 forms (folded literal, literal of bound variables, bound) with value, size and l[i] for every int in [-size-2, size+2], the int/uint extremes, every uint up to size+1 and 8 non-integer indices (literal and bound); membership of 17 probes in every list of length <=2; all ordered pairs of lists of length <=2 under +; all map literals with <=3/4 entries over keys {a, b, ''} with repetition in n+4 forms (constant, each single value variable, all values variable, variable keys, bound map) with m[k], m.k, k in m for present, absent and non-string keys; substring-in, + and size for all strings of length <=3/4 over {a, b, e-acute} x needles of length <=2; bytes pairs; `in` and `+` over all ordered pairs of one value per type outside their domains. Complete for these bounds only.",
+         "Trusted: the Vec/BTreeMap reference in c06.rs. Membership across numeric types, indexing of strings/bytes and size of maps are not fixed by the statement.",
+         "DESIGN.md section 3, C06"),
  "C13": ("exploration",
 
          "bounded exhaustive enumeration of literal spellings whose denoted value the generator knows by construction",
